@@ -180,7 +180,24 @@ func (p c04) Run(w *mon.Worker, idx int) mon.Result {
 	}
 	fl := ref.MergeFlags{Append: r.IntN(3) == 0, Deep: r.IntN(3) == 0, Existing: r.IntN(4) == 0, NewOnly: r.IntN(4) == 0}
 	fam := []string{"merge", "merge", "merge", "laws", "immut", "fold"}[idx%6]
-	res := mon.Result{Tags: []string{"family:" + fam, "flags:" + fl.String()}}
+	// a quarter of the float-free cases go through the JSON decoder (it builds the node tree, with the places of
+	// its nodes, on its own; nulls inside sequences included)
+	inFmt := "yaml"
+	{
+		hasFloat := false
+		for _, x := range []*ref.V{a, b} {
+			x.Walk(nil, func(_ []any, n *ref.V) {
+				if n.K == ref.Float {
+					hasFloat = true
+				}
+			})
+		}
+		if !hasFloat && idx%4 == 3 {
+			inFmt = "json"
+		}
+	}
+	evalDoc := func(expr string, d *ref.V) (*ref.V, []*ref.V, error) { return evalDocFmt(expr, d, inFmt) }
+	res := mon.Result{Tags: []string{"family:" + fam, "flags:" + fl.String(), "decoder:" + inFmt}}
 	doc := ref.MapV(ref.KV{K: "a", V: a}, ref.KV{K: "b", V: b})
 	cs := map[string]any{"a": a.JSON(), "b": b.JSON(), "flags": fl.String(), "family": fam}
 	res.Case = cs
